@@ -20,7 +20,7 @@ NT_RULE = ('state = (T, P, n) log-uniform in 50-3000 K, 1e-3-1e3 bar, 1e-3-1e3 m
            'sub-/super-critical isotherms; non-trivial = sub-critical state with three real roots or a '
            'liquid-root evaluation; distinct = distinct canonical JSON of the case')
 REQUIRED_ORACLES = ['Z1', 'Z2', 'Z2root', 'Z3', 'Z4', 'Z5']
-REQUIRED_CLASSES = ['roots:3', 'roots:1', 'T<Tc', 'T>Tc', 'root:liquid', 'root:gas', 'from_critical']
+REQUIRED_CLASSES = ['roots:3', 'roots:1', 'T<Tc', 'T>Tc', 'root:liquid', 'root:gas', 'from_critical', 'state:dense_supercritical', 'state:light_gas_hot']
 REQUIRED_PROBES = ['vanDerWaalsEOS.get_Vm', 'IdealGasEOS.get_V']
 ASSUMPTIONS = ['back-substitution tolerance = 1e-10 * |dX/dlnV| + 1e-11*|X|: the cubic solver returns a '
                'volume with relative error <~1e-12, and the map V->P is ill-conditioned on the liquid root '
@@ -44,6 +44,10 @@ def directed(tier):
     D.append({'kind': 'crit', 'Tc': 304.13, 'Pc': 73.77, 'T': 280.0, 'P': 40.0, 'n': 3.0})
     D.append({'kind': 'crit', 'Tc': 5.0, 'Pc': 1.0, 'T': 50.0, 'P': 0.001, 'n': 1000.0})
     D.append({'kind': 'crit', 'Tc': 1000.0, 'Pc': 300.0, 'T': 900.0, 'P': 100.0, 'n': 0.001})
+    D.append({'kind': 'vdw', 'a': 0.00346, 'b': 2.38e-5, 'T': 300.0, 'P': 1.0, 'n': 1.0})        # He
+    D.append({'kind': 'vdw', 'a': 0.0248, 'b': 2.66e-5, 'T': 1500.0, 'P': 50.0, 'n': 2.0})      # H2, hot
+    D.append({'kind': 'vdw', 'a': 0.3640, 'b': 4.267e-5, 'T': 320.0, 'P': 150.0, 'n': 1.0})     # CO2 dense supercritical
+    D.append({'kind': 'vdw', 'a': 0.3640, 'b': 4.267e-5, 'T': 350.0, 'P': 300.0, 'n': 0.5})
     D.append({'kind': 'ideal', 'T': 298.15, 'P': 1.0, 'n': 1.0})
     D.append({'kind': 'ideal', 'T': 3000.0, 'P': 1e-3, 'n': 1e3})
     D.append({'kind': 'defaults'})
@@ -60,7 +64,16 @@ def generate(rng, tier):
         Tc, Pc = 8 * a / (27 * b * R_SI), a / (27 * b * b) / 1e5
     else:
         Tc, Pc = _lu(rng, 5, 1000), _lu(rng, 1, 300)
-    mode = rng.choice(['any', 'sub3', 'sub', 'super'])
+    mode = rng.choice(['any', 'sub3', 'sub', 'super', 'super_near', 'lightgas'])
+    if mode == 'lightgas' and k == 'vdw':
+        # He / H2 / Ne-like parameters far above Tc (the liquid-root request then has a single real root)
+        a, b = _lu(rng, 0.003, 0.03), _lu(rng, 1.5e-5, 3e-5)
+        Tc, Pc = 8 * a / (27 * b * R_SI), a / (27 * b * b) / 1e5
+        T = float('%.8g' % rng.uniform(max(50.0, 3 * Tc), 3000.0))
+    if mode == 'super_near':
+        # dense supercritical states next to the critical isotherm
+        T = float('%.8g' % min(3000.0, max(50.0, Tc * rng.uniform(1.001, 1.3))))
+        P = float('%.8g' % min(1e3, max(1e-3, Pc * rng.uniform(1.1, 5.0))))
     if mode in ('sub3', 'sub') and Tc > 55:
         T = float('%.8g' % rng.uniform(max(50.0, 0.5 * Tc), min(3000.0, 0.999 * Tc)))
         if mode == 'sub3':
@@ -223,6 +236,11 @@ def _vdw(spec, ctx):
         ctx.close('Z5', vc / (3 * n * b), 1.0, 1e-12, {'step': 'get_Vc'})
     Tc_ref = 8 * a / (27 * b * R_SI)
     ctx.cls('T<Tc' if T < Tc_ref else 'T>Tc')
+    Pc_ref = a / (27 * b * b) / 1e5
+    if Tc_ref < T <= 1.3 * Tc_ref and 1.1 * Pc_ref <= P <= 5 * Pc_ref:
+        ctx.cls('state:dense_supercritical')
+    if a <= 0.03 and T >= 3 * Tc_ref:
+        ctx.cls('state:light_gas_hot')
     P_SI = P * 1e5
     picked = {}
     from pmutt import constants as c
